@@ -36,6 +36,10 @@ def c07_rates(prop, tier, seed, bins, tag):
     import checklib
     return checklib.c07_rates_stage(prop, tier, seed, bins, tag)
 
+def td_long_search(prop, tier, seed, bins, tag):
+    import checklib
+    return checklib.td_long_search_stage(prop, tier, seed, bins, tag)
+
 def P(stages, tb=None, assumptions=None, profiles=None):
     return {'stages': stages, 'trusted_base': TB_COMMON + (tb or []), 'assumptions': AS_COMMON + (assumptions or []),
             'profiles': profiles or ['debug']}
@@ -54,7 +58,7 @@ PROPS = {
     'C10': P([disc('heap')]),
     'C16': P([disc('td')], tb=['t-digest: theorems are over the exact-rational (Q) instance of the generic model; the correspondence runs the same generic model with OCaml native binary64 arithmetic (arith record in ocaml/driver.ml) and the scale-function limits f_inv(f(q0,n)+1,n) logged from the crate\'s own ScaleFunction calls; IEEE rounding is the gap between the two instances'], assumptions=['floating-point accumulation error is outside the theorems (the property allows it); the oracle compares with n*4 ulp relative tolerance']),
     'C15': P([disc('td')], tb=['t-digest: theorems over the Q instance; float instance replayed bit-exactly against the crate'], assumptions=['ulp-level effects (a fused mean exceeding max by an ulp) are outside the exact-arithmetic theorems; the oracle allows 16 ulp of the data range scaled by total/smallest weight, as the property does']),
-    'C04': P([disc('td')], tb=['axioms (standard library, via Reals) of the real-arithmetic theorems of this property: ClassicalDedekindReals.sig_forall_dec, ClassicalDedekindReals.sig_not_dec, FunctionalExtensionality.functional_extensionality_dep, Classical_Prop.classic; all other theorems are closed under the global context', 't-digest: theorems over the Q instance; float instance replayed bit-exactly against the crate'], assumptions=['rank accuracy across repeated merges is an empirical claim about input families and is NOT proved; size bound proved for K0 and for any scale function satisfying the abstract limit hypothesis']),
+    'C04': P([td_long_search, disc('td')], profiles=['debug', 'release'], tb=['axioms (standard library, via Reals) of the real-arithmetic theorems of this property: ClassicalDedekindReals.sig_forall_dec, ClassicalDedekindReals.sig_not_dec, FunctionalExtensionality.functional_extensionality_dep, Classical_Prop.classic; all other theorems are closed under the global context', 't-digest: theorems over the Q instance; float instance replayed bit-exactly against the crate'], assumptions=['rank accuracy across repeated merges is an empirical claim about input families and is NOT proved; size bound proved for K0 and for any scale function satisfying the abstract limit hypothesis']),
     'C01': P([disc('bloom', 'cuckoo', 'qf', 'hset')]),
     'C06': P([disc('bloom', 'cms', 'hll', 'cuckoo', 'qf')]),
     'C12': P([disc('cuckoo', 'qf')]),
